@@ -16,9 +16,11 @@ import time
 VERIF = os.path.dirname(os.path.dirname(os.path.abspath(__file__)))
 SPEC = os.path.join(VERIF, "spec")
 HARNESS = os.environ.get("VERIF_HARNESS_DIR", os.path.join(VERIF, "harness"))
-WORK = os.path.join(VERIF, "work")
-EVID = os.path.join(VERIF, "evidence")
-REPLAYS = os.path.join(VERIF, "replays")
+# VERIF_WORK / VERIF_EVID / VERIF_REPLAYS let a second run (e.g. against a seeded mutant) use its own scratch,
+# evidence and replay directories so it cannot disturb the registered checks' files.
+WORK = os.environ.get("VERIF_WORK", os.path.join(VERIF, "work"))
+EVID = os.environ.get("VERIF_EVID", os.path.join(VERIF, "evidence"))
+REPLAYS = os.environ.get("VERIF_REPLAYS", os.path.join(VERIF, "replays"))
 REPO = os.environ.get("VERIF_REPO", "/repo")
 
 
